@@ -111,6 +111,25 @@ func (x *extractor) genGuards(b *strings.Builder) {
 		})
 		fmt.Fprintf(b, "def %s : Option (List String) := some [%s]\n", name, quoteJoin(eff))
 	}
+	// which bit fields the framing code reads, and whether as signed or unsigned
+	for _, name := range []string{"Handler.getMessageLengthAndType", "Handler.GetMessage"} {
+		_, fd := x.fn("handler", name)
+		ln := leanIdent("bitreads_handler_" + name)
+		if fd == nil || fd.Body == nil {
+			fmt.Fprintf(b, "def %s : Option (List String) := none\n", ln)
+			continue
+		}
+		var reads []string
+		ast.Inspect(fd.Body, func(n ast.Node) bool {
+			if ce, ok := n.(*ast.CallExpr); ok {
+				if se, ok := ce.Fun.(*ast.SelectorExpr); ok && (se.Sel.Name == "GetBitsAsUint64" || se.Sel.Name == "GetBitsAsInt64") && len(ce.Args) == 3 {
+					reads = append(reads, se.Sel.Name+" "+exprText(ce.Args[1])+" "+exprText(ce.Args[2]))
+				}
+			}
+			return true
+		})
+		fmt.Fprintf(b, "def %s : Option (List String) := some [%s]\n", ln, quoteJoin(reads))
+	}
 	// the two accessors through which Handle reads its tolerance and its retry pause
 	for _, name := range []string{"Config.TimeoutOnEOF", "Config.WaitTimeOnEOF"} {
 		_, fd := x.fn("jsonconfig", name)
